@@ -1,1 +1,471 @@
-/- C08: property theorems (not built yet). -/
+/-
+  C08 — trim_graph preserves the outputs as a function of the inputs.
+
+  Model: Pycel/Model/Trim.lean (on the workbook/engine of Pycel/Model/Engine.lean).  Lemmas: Pycel/Lemmas/Trim.lean.
+  Every theorem holds for EVERY workbook `wb` (any DAG in topological presentation: cells, ranges as nodes, nested
+  ranges), EVERY value type `α` and formula semantics `f` reading only declared precedents, EVERY input list `I` and
+  output list `O` (cells or range nodes, leaf or buried, overlapping), EVERY engine state `s` the trim is called on
+  (never / partly / fully evaluated), and EVERY assignment — by induction along the topological order, never by sampling.
+
+  Vocabulary.  `cutAt wb C`: the workbook in which the cells of `C` are value cells — how a workbook is read "as a
+  function of the inputs" when an input is buried (has its own formula): assigning it overrides the formula.
+  `override inp C v`: the input values `inp` with the cells of `C` assigned `v`.  An assignment is a pair `(C, v)` with
+  `C ⊆ inputCells wb I` (the listed inputs and the member cells of listed ranges) — the inputs that have been written;
+  an input that was never written keeps what it had at trim time.  `denote` = from-scratch value (Engine.lean).
+-/
+import Pycel.Lemmas.Trim
+import Pycel.Lemmas.EngineInst
+namespace Pycel.Trim
+open Pycel.Engine
+
+variable {α : Type} {wb : Workbook} {f : Nat → (Nat → α) → α}
+
+/-! ## the states `trim_graph` is called on -/
+
+/-- the engine invariant of C01 plus: the cell map is closed under precedents -/
+structure Ready (wb : Workbook) (f : Nat → (Nat → α) → α) (s : State α) : Prop where
+  inv : Inv wb f s
+  closed : BuiltClosed wb s.built
+
+/- "in the three starting configurations": a fresh model (never evaluated) is Ready, and every history of
+   set_value/evaluate keeps it Ready (partly, fully evaluated). -/
+theorem C08_ready_init (inp : Nat → α) : Ready wb f (initNoData inp) :=
+  ⟨initNoData_inv inp, builtClosed_init inp⟩
+
+theorem C08_ready_run (hwf : WF wb) (hl : Local wb f) (eqv : α → α → Bool) (h : List (Op α)) :
+    ∀ {s : State α}, Ready wb f s → Ready wb f (run wb f eqv s h) := by
+  induction h with
+  | nil => intro s hs; exact hs
+  | cons op h ih =>
+    intro s hs
+    apply ih
+    cases op with
+    | set i v =>
+      refine ⟨setValue_inv hwf hl eqv hs.inv i v, ?_⟩
+      show BuiltClosed wb (setValue wb eqv i v s).built
+      rw [setValue_built hwf hl eqv hs.inv i v]; exact hs.closed
+    | eval a => exact ⟨(evaluate_spec hwf hl hs.inv a).inv, builtClosed_evaluate hwf a s hs.closed⟩
+
+/-- a successful trim is the freeze of the state after `_gen_graph(outputs)` and the evaluation of the cells to freeze,
+    and that state satisfies what the proofs need — in particular `evaluatedAtTrim` -/
+theorem trim_ok (hwf : WF wb) (hl : Local wb f) {I O : List Nat} {s : State α} {t : Trimmed α}
+    (hr : Ready wb f s) (h : trim wb f I O s = .ok t) :
+    t = freeze wb f I O (evalFrozen wb f I O (genGraph wb f O s)) ∧
+    FreezeReady wb f I O (evalFrozen wb f I O (genGraph wb f O s)) ∧
+    (evalFrozen wb f I O (genGraph wb f O s)).inp = s.inp := by
+  unfold trim at h
+  simp only at h
+  split at h
+  · exact absurd h (by simp)
+  · rename_i hce
+    have hO : ∀ o, o ∈ O → o < wb.n := by
+      intro o ho
+      unfold checkErr at hce
+      split at hce
+      · exact absurd hce (by simp)
+      · rename_i hf
+        have := (List.find?_eq_none.mp hf) o ho
+        simpa using this
+    have g := genGraph_spec hwf hl O hO s hr.inv hr.closed
+    have e := evalFrozen_spec hwf hl I O (genGraph wb f O s) g.1
+    refine ⟨(Except.ok.inj h).symm, ⟨e.2.1, e.2.2.1, ?_, ?_, ?_⟩, e.1.inp.trans g.2.2.1⟩
+    · rw [e.1.built]; exact g.2.1
+    · intro o ho; rw [e.1.built]; exact ⟨hO o ho, g.2.2.2.2 o ho⟩
+    · intro k hk; rw [e.1.built] at hk; exact e.2.2.2 k hk
+
+/-! ## independence -/
+
+/- "cells that feed the outputs but do not depend on an input": a cell with no input among its transitive precedents
+   (`Prec`, and not an input itself) has the same value under every assignment of the inputs — whatever is written to
+   the inputs (`σ` and `σ'` differ at most on input cells), buried inputs included (`cutAt`). -/
+theorem C08_independent (hwf : WF wb) (hl : Local wb f) (I : List Nat) (c : Nat)
+    (hc : inputCells wb I c = false) (hp : ∀ i, Prec wb i c → inputCells wb I i = false)
+    (σ σ' : Nat → α) (hσ : ∀ k, inputCells wb I k = false → σ k = σ' k) :
+    denote (cutAt wb (inputCells wb I)) f σ c = denote (cutAt wb (inputCells wb I)) f σ' c := by
+  have hd : depOn wb (inputCells wb I) c = false := (depOn_false_iff hwf _ c).mpr hp
+  rw [denote_cut_indep hwf hl _ _ (fun _ h => h) σ σ' hσ c ⟨hc, fun _ => hσ c hc⟩ hd,
+    denote_cut_indep hwf hl _ _ (fun _ h => h) σ' σ' (fun _ _ => rfl) c ⟨hc, fun _ => rfl⟩ hd]
+
+/- the executable test the model uses (`depOn`) is exactly "no input among the strict transitive precedents". -/
+theorem C08_depOn_iff (hwf : WF wb) (src : Nat → Bool) (k : Nat) :
+    depOn wb src k = false ↔ ∀ i, Prec wb i k → src i = false :=
+  depOn_false_iff hwf src k
+
+/- what is frozen does not depend on an input. -/
+theorem C08_frozen_independent (hwf : WF wb) (hl : Local wb f) {I O : List Nat} {s : State α} {t : Trimmed α}
+    (hr : Ready wb f s) (h : trim wb f I O s = .ok t) (k : Nat) (hk : t.frozen k = true) :
+    ∀ i, Prec wb i k → inputCells wb I i = false := by
+  obtain ⟨rfl, fr, _⟩ := trim_ok hwf hl hr h
+  exact (depOn_false_iff hwf _ k).mp (frozen_indep _ I O hwf fr.closed fr.outs hk)
+
+/-! ## frozen cells -/
+
+/- "cells that feed the outputs but do not depend on an input are frozen to the value they had at trim time":
+   a frozen cell is a value cell of the trimmed workbook, and the value it holds is the value of the cell in the
+   untrimmed workbook at the inputs of trim time … -/
+theorem C08_frozen_value (hwf : WF wb) (hl : Local wb f) {I O : List Nat} {s : State α} {t : Trimmed α}
+    (hr : Ready wb f s) (h : trim wb f I O s = .ok t) (k : Nat) (hk : t.frozen k = true) :
+    t.wb.kind k = .input ∧ t.wb.deps k = [] ∧ t.st.inp k = denote wb f s.inp k := by
+  obtain ⟨rfl, fr, hinp⟩ := trim_ok hwf hl hr h
+  refine ⟨cutAt_kind_of hk, cutAt_deps_of hk, ?_⟩
+  rw [freeze_inp]
+  have hk' : frozen wb (evalFrozen wb f I O (genGraph wb f O s)).built I O k = true := hk
+  rw [hk', ← hinp]; simp only [if_true]
+  exact frozenVal_eq fr hk'
+
+/- … and it keeps that value under every later assignment of the inputs (that does not write the cell itself). -/
+theorem C08_frozen_constant (hwf : WF wb) (hl : Local wb f) {I O : List Nat} {s : State α} {t : Trimmed α}
+    (hr : Ready wb f s) (h : trim wb f I O s = .ok t) (C : Nat → Bool) (v : Nat → α)
+    (k : Nat) (hk : t.frozen k = true) (hck : C k = false) :
+    denote (cutAt t.wb C) f (override t.st.inp C v) k = denote wb f s.inp k := by
+  have fv := C08_frozen_value hwf hl hr h k hk
+  rw [denote_input _ (by rw [cutAt_kind_of_not hck]; exact fv.1)]
+  simp only [override, hck, Bool.false_eq_true, if_false]
+  exact fv.2.2
+
+/-! ## the outputs are preserved -/
+
+/- "After trim_graph(inputs, outputs) the model … returns for every output, under every assignment of values to the
+   inputs, exactly what the untrimmed model returns":  for every set `C` of written inputs and every values `v`,
+   every output `o` (indeed every cell the precedent walk descends into, `t.live`) has the same from-scratch value
+   in the trimmed and in the untrimmed workbook.  `evaluatedAtTrim` is not a hypothesis: `trim` evaluates a frozen
+   formula cell that has no value yet (the repaired code does; see `C08_asWritten_counterexample`). -/
+theorem C08_preserves_live (hwf : WF wb) (hl : Local wb f) {I O : List Nat} {s : State α} {t : Trimmed α}
+    (hr : Ready wb f s) (h : trim wb f I O s = .ok t)
+    (C : Nat → Bool) (hC : ∀ k, C k = true → inputCells wb I k = true) (v : Nat → α)
+    (m : Nat) (hm : t.live m = true) :
+    denote (cutAt t.wb C) f (override t.st.inp C v) m = denote (cutAt wb C) f (override s.inp C v) m := by
+  obtain ⟨rfl, fr, hinp⟩ := trim_ok hwf hl hr h
+  rw [← hinp]
+  exact freeze_preserved hwf hl fr C hC v hm
+
+theorem C08_output_live (hwf : WF wb) (hl : Local wb f) {I O : List Nat} {s : State α} {t : Trimmed α}
+    (hr : Ready wb f s) (h : trim wb f I O s = .ok t) (o : Nat) (ho : o ∈ O) : t.live o = true := by
+  obtain ⟨rfl, _, _⟩ := trim_ok hwf hl hr h
+  exact live_of_out _ I O hwf (List.contains_iff_mem.mpr ho)
+
+theorem C08_preserves (hwf : WF wb) (hl : Local wb f) {I O : List Nat} {s : State α} {t : Trimmed α}
+    (hr : Ready wb f s) (h : trim wb f I O s = .ok t)
+    (C : Nat → Bool) (hC : ∀ k, C k = true → inputCells wb I k = true) (v : Nat → α)
+    (o : Nat) (ho : o ∈ O) :
+    denote (cutAt t.wb C) f (override t.st.inp C v) o = denote (cutAt wb C) f (override s.inp C v) o :=
+  C08_preserves_live hwf hl hr h C hC v o (C08_output_live hwf hl hr h o ho)
+
+/- the hypothesis the proof forces, stated on its own: the freeze of ANY state `s2` whose frozen formula cells hold
+   their evaluated value (`FreezeReady.evaluated` = `evaluatedAtTrim`) preserves the outputs. -/
+theorem C08_preserves_of_evaluatedAtTrim (hwf : WF wb) (hl : Local wb f) {I O : List Nat} {s2 : State α}
+    (hr : FreezeReady wb f I O s2)
+    (C : Nat → Bool) (hC : ∀ k, C k = true → inputCells wb I k = true) (v : Nat → α)
+    (o : Nat) (ho : o ∈ O) :
+    denote (cutAt (freeze wb f I O s2).wb C) f (override (freeze wb f I O s2).st.inp C v) o =
+      denote (cutAt wb C) f (override s2.inp C v) o :=
+  freeze_preserved hwf hl hr C hC v (live_of_out _ I O hwf (List.contains_iff_mem.mpr ho))
+
+/-! ## the trimmed workbook is well formed -/
+
+/- every formula that remains and feeds an output still finds its precedents: a child of a walked cell is walked or
+   frozen; a walked cell stays in the cell map or is a range over kept cells (re-created on the next read); a frozen
+   cell stays in the cell map and has no precedents. -/
+theorem C08_wf (hwf : WF wb) (hl : Local wb f) {I O : List Nat} {s : State α} {t : Trimmed α}
+    (hr : Ready wb f s) (h : trim wb f I O s = .ok t) :
+    WF t.wb ∧
+    (∀ k, t.live k = true → k < wb.n ∧ t.wb.deps k = wb.deps k ∧ t.wb.kind k = wb.kind k ∧
+      (t.keep k = true ∨ wb.kind k = .range) ∧
+      ∀ j, j ∈ t.wb.deps k → t.live j = true ∨ t.frozen j = true) ∧
+    (∀ k, t.frozen k = true → t.keep k = true ∧ t.wb.deps k = []) := by
+  obtain ⟨rfl, fr, _⟩ := trim_ok hwf hl hr h
+  refine ⟨cutAt_wf hwf _, fun k hk => ?_, fun k hk => ⟨frozen_keep _ I O hk, cutAt_deps_of hk⟩⟩
+  have hnf := live_not_frozen _ I O hwf hk
+  have hlt := live_lt _ I O hwf (fun o ho => (fr.outs o ho).1) hk
+  refine ⟨hlt, cutAt_deps_of_not hnf, cutAt_kind_of_not hnf, ?_, fun j hj => ?_⟩
+  · rcases live_keep_or_range _ I O hwf hk with h | h
+    · exact Or.inl h
+    · exact Or.inr (by simpa [isRange] using h)
+  · rw [freeze_wb, cutAt_deps_of_not hnf] at hj
+    exact live_step _ I O hwf hk hlt hj
+
+/-! ## save / load -/
+
+/- "directly and after a save/load round trip":  the workbook `from_file` rebuilds from the file `to_file` writes for
+   the trimmed model (`reloadWb/reloadInp`: the cells of the cell map with their formula or constant — the C03
+   contract `decodeCell (encodeCell c) = c`; ranges rebuilt over them; any other cell empty, `blank`) computes for
+   every output, under every assignment, what the untrimmed workbook computes: trim commutes with save/load on the
+   outputs. -/
+theorem C08_persist (hwf : WF wb) (hl : Local wb f) {I O : List Nat} {s : State α} {t : Trimmed α}
+    (hr : Ready wb f s) (h : trim wb f I O s = .ok t)
+    (C : Nat → Bool) (hC : ∀ k, C k = true → inputCells wb I k = true) (v : Nat → α) (blank : α)
+    (o : Nat) (ho : o ∈ O) :
+    denote (cutAt (reloadWb wb t) C) f (override (reloadInp wb blank t) C v) o =
+      denote (cutAt wb C) f (override s.inp C v) o := by
+  obtain ⟨rfl, fr, hinp⟩ := trim_ok hwf hl hr h
+  rw [← hinp]
+  exact reload_preserved hwf hl fr C hC v blank (live_of_out _ I O hwf (List.contains_iff_mem.mpr ho))
+
+/- … hence the reloaded and the directly trimmed model agree with each other on the outputs. -/
+theorem C08_persist_commutes (hwf : WF wb) (hl : Local wb f) {I O : List Nat} {s : State α} {t : Trimmed α}
+    (hr : Ready wb f s) (h : trim wb f I O s = .ok t)
+    (C : Nat → Bool) (hC : ∀ k, C k = true → inputCells wb I k = true) (v : Nat → α) (blank : α)
+    (o : Nat) (ho : o ∈ O) :
+    denote (cutAt (reloadWb wb t) C) f (override (reloadInp wb blank t) C v) o =
+      denote (cutAt t.wb C) f (override t.st.inp C v) o := by
+  rw [C08_persist hwf hl hr h C hC v blank o ho, C08_preserves hwf hl hr h C hC v o ho]
+
+/-! ## the error cases -/
+
+/- "input not feeding any output": the trim fails exactly when an output is not a node of the workbook, or an input is
+   a value cell that is in the cell map after `_gen_graph(outputs)`, has no dependant there and is not an output. -/
+theorem C08_error_iff (I O : List Nat) (s : State α) :
+    (∃ e, trim wb f I O s = .error e) ↔
+      (∃ o, o ∈ O ∧ wb.n ≤ o) ∨ (∃ i, i ∈ I ∧ unusedInput wb (genGraph wb f O s).built O i = true) := by
+  have h1 : (∃ e, trim wb f I O s = .error e) ↔ ∃ e, checkErr wb I O (genGraph wb f O s) = some e := by
+    unfold trim
+    simp only
+    cases hce : checkErr wb I O (genGraph wb f O s) with
+    | none => simp
+    | some e => simp
+  rw [h1]
+  unfold checkErr
+  cases hf : O.find? (fun o => decide (wb.n ≤ o)) with
+  | some o =>
+    simp only [Option.some.injEq, exists_eq']
+    simp only [true_iff]
+    exact Or.inl ⟨o, List.mem_of_find?_eq_some hf, by simpa using List.find?_some hf⟩
+  | none =>
+    cases hg : I.find? (fun i => unusedInput wb (genGraph wb f O s).built O i) with
+    | some i =>
+      simp only [Option.some.injEq, exists_eq']
+      simp only [true_iff]
+      exact Or.inr ⟨i, List.mem_of_find?_eq_some hg, List.find?_some hg⟩
+    | none =>
+      simp only [reduceCtorEq, exists_false, false_iff]
+      rintro (⟨o, ho, hn⟩ | ⟨i, hi, hu⟩)
+      · exact (List.find?_eq_none.mp hf) o ho (by simpa using hn)
+      · exact (List.find?_eq_none.mp hg) i hi hu
+
+/-! ## the trimmed model as an engine state: any later history -/
+
+/- the trimmed state satisfies the invariant of C01 for the trimmed workbook, so `C01_coherence` applies to every
+   later set_value/evaluate history on it … -/
+theorem C08_trim_inv (hwf : WF wb) (hl : Local wb f) {I O : List Nat} {s : State α} {t : Trimmed α}
+    (hr : Ready wb f s) (h : trim wb f I O s = .ok t) :
+    WF t.wb ∧ Local t.wb t.f ∧ Inv t.wb t.f t.st := by
+  obtain ⟨rfl, fr, _⟩ := trim_ok hwf hl hr h
+  generalize hs2 : evalFrozen wb f I O (genGraph wb f O s) = s2 at fr
+  refine ⟨cutAt_wf hwf _, ?_, ?_, ?_, Or.inl fun _ => rfl⟩
+  · intro i e e' hh
+    cases hfi : frozen wb s2.built I O i with
+    | true =>
+      show (if frozen wb s2.built I O i = true then _ else f i e) = (if frozen wb s2.built I O i = true then _ else f i e')
+      rw [hfi]; simp
+    | false =>
+      show (if frozen wb s2.built I O i = true then _ else f i e) = (if frozen wb s2.built I O i = true then _ else f i e')
+      rw [hfi]; simp only [Bool.false_eq_true, if_false]
+      rw [freeze_wb, cutAt_deps_of_not hfi] at hh
+      exact hl i e e' hh
+  · intro m w hmw
+    rw [freeze_denote_all hwf hl fr m]
+    have hmw' : (if live wb s2.built I O m = true then s2.cache m else none) = some w := hmw
+    split at hmw'
+    · exact fr.i1 m w hmw'
+    · exact absurd hmw' (by simp)
+  · intro m hm
+    have hm' : (if live wb s2.built I O m = true then s2.cache m else none) ≠ none := hm
+    split at hm'
+    · rename_i hlv
+      have hnf := live_not_frozen _ I O hwf hlv
+      obtain ⟨a, b, c⟩ := fr.cl m hm'
+      refine ⟨by rw [freeze_wb, cutAt_kind_of_not hnf]; exact a, b, fun j hj => ?_⟩
+      rw [freeze_wb, cutAt_deps_of_not hnf] at hj
+      rcases live_step _ I O hwf hlv b hj with hlj | hfj
+      · rcases c j hj with hkj | hcj
+        · left; rw [freeze_wb, cutAt_kind_of_not (live_not_frozen _ I O hwf hlj)]; exact hkj
+        · right
+          show (if live wb s2.built I O j = true then s2.cache j else none) ≠ none
+          rw [if_pos hlj]; exact hcj
+      · left; rw [freeze_wb]; exact cutAt_kind_of hfj
+    · exact absurd rfl hm'
+
+theorem setValue_inp_other (hwf : WF wb) (hl : Local wb f) (eqv : α → α → Bool) {s : State α} (hinv : Inv wb f s)
+    (i : Nat) (v : α) (k : Nat) (h : k ≠ i ∨ wb.kind i ≠ .input) : (setValue wb eqv i v s).inp k = s.inp k := by
+  unfold setValue
+  split
+  · rename_i hc
+    split
+    · rfl
+    · have h2 := congrFun (setWalk_spec hwf hl hinv i v).2.1 k
+      rw [h2]
+      rcases h with h | h
+      · exact update_ne _ _ h
+      · exact absurd hc.2.1 h
+  · rfl
+
+/-- a history that writes only cells of `T` leaves every other cell — and every formula or range node — as it was -/
+theorem run_inp_outside (hwf : WF wb) (hl : Local wb f) (eqv : α → α → Bool) (T : Nat → Bool) :
+    ∀ (h : List (Op α)) {s : State α}, Inv wb f s → (∀ i v, Op.set i v ∈ h → T i = true) →
+      ∀ k, (T k = false ∨ wb.kind k ≠ .input) → (run wb f eqv s h).inp k = s.inp k := by
+  intro h
+  induction h with
+  | nil => intro s _ _ k _; rfl
+  | cons op h ih =>
+    intro s hinv hT k hk
+    have hrun : run wb f eqv s (op :: h) = run wb f eqv (step wb f eqv s op) h := by simp [run]
+    rw [hrun, ih (step_inv hwf hl eqv hinv op) (fun i v hm => hT i v (by simp [hm])) k hk]
+    cases op with
+    | set i v =>
+      show (setValue wb eqv i v s).inp k = s.inp k
+      apply setValue_inp_other hwf hl eqv hinv
+      by_cases hki : k = i
+      · right
+        rcases hk with hk | hk
+        · have := hT i v (by simp); rw [← hki, hk] at this; exact absurd this (by simp)
+        · rw [← hki]; exact hk
+      · exact Or.inl hki
+    | eval a => exact congrFun (evaluate_spec hwf hl hinv a).inp k
+
+/- … so, after ANY history of writes to the inputs (and evaluations of anything), `evaluate(o)` on the trimmed model
+   returns what the untrimmed workbook computes from scratch when the inputs the trimmed model holds as value cells
+   (`C`: leaf inputs and frozen buried inputs) carry the values written so far: "under every assignment and
+   re-assignment of the inputs".  (An input that still has its formula in the trimmed model — it depends on another
+   input — is a formula cell in both models; writing over a formula cell is outside the engine model of C01.) -/
+theorem C08_trimmed_engine (hwf : WF wb) (hl : Local wb f) (eqv : α → α → Bool) {I O : List Nat} {s : State α}
+    {t : Trimmed α} (hr : Ready wb f s) (htrim : trim wb f I O s = .ok t)
+    (h : List (Op α)) (hh : ∀ i v, Op.set i v ∈ h → inputCells wb I i = true) (o : Nat) (ho : o ∈ O) :
+    (evaluate t.wb t.f o (run t.wb t.f eqv t.st h)).1 =
+      denote (cutAt wb (fun k => inputCells wb I k && decide (t.wb.kind k = .input))) f
+        (override s.inp (fun k => inputCells wb I k && decide (t.wb.kind k = .input))
+          (run t.wb t.f eqv t.st h).inp) o := by
+  obtain ⟨hwf', hl', hinv'⟩ := C08_trim_inv hwf hl hr htrim
+  have hlive := C08_output_live hwf hl hr htrim o ho
+  have hon : o < t.wb.n := by
+    have := ((C08_wf hwf hl hr htrim).2.1 o hlive).1
+    obtain ⟨rfl, _, _⟩ := trim_ok hwf hl hr htrim
+    exact this
+  rw [(evaluate_spec hwf' hl' (run_inv hwf' hl' eqv h hinv') o).val hon]
+  generalize hC : (fun k => inputCells wb I k && decide (t.wb.kind k = .input)) = C
+  have hCin : ∀ k, C k = true → inputCells wb I k = true := by
+    intro k hk; subst hC; simp only [Bool.and_eq_true] at hk; exact hk.1
+  have hCkind : ∀ k, C k = true → t.wb.kind k = .input := by
+    intro k hk; subst hC; simp only [Bool.and_eq_true, decide_eq_true_eq] at hk; exact hk.2
+  have hinp : (run t.wb t.f eqv t.st h).inp = override t.st.inp C (run t.wb t.f eqv t.st h).inp := by
+    funext k
+    cases hck : C k with
+    | true => simp [override, hck]
+    | false =>
+      simp only [override, hck, Bool.false_eq_true, if_false]
+      apply run_inp_outside hwf' hl' eqv (inputCells wb I) h hinv' hh
+      subst hC
+      cases hic : inputCells wb I k with
+      | false => exact Or.inl rfl
+      | true => right; simpa [hic] using hck
+  rw [← C08_preserves hwf hl hr htrim C hCin (run t.wb t.f eqv t.st h).inp o ho,
+    cutAt_inputs hwf' C hCkind, ← hinp]
+  obtain ⟨rfl, _, _⟩ := trim_ok hwf hl hr htrim
+  apply denote_f_congr hwf' (localN_cut hl _)
+  intro i hki
+  funext env
+  cases hfi : frozen wb (evalFrozen wb f I O (genGraph wb f O s)).built I O i with
+  | true => exact absurd (cutAt_kind_of hfi) hki
+  | false =>
+    show (if frozen wb (evalFrozen wb f I O (genGraph wb f O s)).built I O i = true then _ else f i env) = f i env
+    rw [hfi]; simp
+
+/-! ## the instance the correspondence driver runs, non-vacuity, and the forced hypotheses -/
+
+section Inst
+open Pycel.EngineInst
+
+/- the driver's model (concrete formula language of EngineInst.lean) is an instance of the theorems above, for every
+   workbook description that passes the run-time check `wfCheck` (the driver refuses any other). -/
+theorem C08_preserves_inst (specs : List Spec) (hwf : wfCheck specs = true) {I O : List Nat} {s : State EV}
+    {t : Trimmed EV} (hr : Ready (mkWb specs) (sem specs) s) (h : trim (mkWb specs) (sem specs) I O s = .ok t)
+    (C : Nat → Bool) (hC : ∀ k, C k = true → inputCells (mkWb specs) I k = true) (v : Nat → EV)
+    (o : Nat) (ho : o ∈ O) :
+    denote (cutAt t.wb C) (sem specs) (override t.st.inp C v) o =
+      denote (cutAt (mkWb specs) C) (sem specs) (override s.inp C v) o :=
+  C08_preserves (wf_of_check specs hwf) (sem_local specs) hr h C hC v o ho
+
+/-- what the trimmed model returns for node `o` (none = the trim raised) -/
+def trimmedValue (r : Except TrimErr (Trimmed EV)) (o : Nat) : Option EV :=
+  match r with
+  | .ok t => some (evaluate t.wb t.f o t.st).1
+  | .error _ => none
+
+def trimmedKeep (r : Except TrimErr (Trimmed EV)) (n : Nat) : Option (List Nat) :=
+  match r with
+  | .ok t => some ((List.range n).filter t.keep)
+  | .error _ => none
+
+def trimmedFrozen (r : Except TrimErr (Trimmed EV)) (n : Nat) : Option (List Nat) :=
+  match r with
+  | .ok t => some ((List.range n).filter t.frozen)
+  | .error _ => none
+
+/-- A1 = 5, B1 = 4, B2 = B1+B1, C1 = A1+B2 (recon witness; pycel: `=B1*5`) -/
+def recon : List Spec := [.inp (.num 5), .inp (.num 4), .fml (.add 1 1), .fml (.add 0 2)]
+
+/- `evaluatedAtTrim` can fail in the pinned code: trimming the never-evaluated model freezes B2 at `None`, and C1
+   evaluates to 5 instead of 13 (pycel: 5 instead of 25) … -/
+theorem C08_asWritten_counterexample :
+    trimmedFrozen (trimAsWritten (mkWb recon) (sem recon) [0] [3] (initNoData (inputsOf recon))) 4 = some [0, 2] ∧
+    trimmedValue (trimAsWritten (mkWb recon) (sem recon) [0] [3] (initNoData (inputsOf recon))) 3 =
+      some (.sc (.num 5)) ∧
+    denote (mkWb recon) (sem recon) (inputsOf recon) 3 = .sc (.num 13) := by
+  decide +kernel
+
+/- … the hypothesis is exactly what fails there: the frozen formula cell B2 holds no value when it is frozen. -/
+theorem C08_asWritten_not_evaluatedAtTrim :
+    ¬ FreezeReady (mkWb recon) (sem recon) [0] [3] (genGraph (mkWb recon) (sem recon) [3] (initNoData (inputsOf recon))) := by
+  intro h
+  exact h.evaluated 2 (by decide +kernel) (by decide +kernel) (by decide +kernel)
+
+/- … while `trim` (which evaluates a cell before freezing it) returns the right value, also after A1 := 7. -/
+example :
+    trimmedValue (trim (mkWb recon) (sem recon) [0] [3] (initNoData (inputsOf recon))) 3 = some (.sc (.num 13)) ∧
+    trimmedKeep (trim (mkWb recon) (sem recon) [0] [3] (initNoData (inputsOf recon))) 4 = some [0, 2, 3] := by
+  decide +kernel
+
+example :
+    (match trim (mkWb recon) (sem recon) [0] [3] (initNoData (inputsOf recon)) with
+      | .ok t => some (evaluate t.wb t.f 3 (setValue t.wb typedEq 0 (.sc (.num 7)) t.st)).1
+      | .error _ => none) = some (.sc (.num 15)) := by
+  decide +kernel
+
+/-- A1 = 1, W1 = 2, X1 = A1+W1, B1 = A1+A1 -/
+def dangling : List Spec := [.inp (.num 1), .inp (.num 2), .fml (.add 0 1), .fml (.add 0 0)]
+
+/- `C08_wf` speaks about the cells that feed an output, and that restriction is forced: a dependant of an input that
+   feeds no output (X1, evaluated before the trim) stays in the cell map with its formula while its precedent W1 is
+   deleted. -/
+theorem C08_wf_dangling_counterexample :
+    (match trim (mkWb dangling) (sem dangling) [0] [3]
+        (evaluate (mkWb dangling) (sem dangling) 2 (initNoData (inputsOf dangling))).2 with
+      | .ok t => t.keep 2 && !t.live 2 && decide (1 ∈ t.wb.deps 2) && !t.keep 1
+      | .error _ => false) = true := by
+  decide +kernel
+
+/-- A1 = 1, A2 = 2, range A1:A2, B1 = A1+A1 (reads a member directly), C1 = SUM(A1:A2, B1); Z1 = 3, Z2 = Z1+Z1
+    (buried input), D1 = C1 + Z2 -/
+def demo : List Spec :=
+  [.inp (.num 1), .inp (.num 2), .rng [[0], [1]], .fml (.add 0 0), .fml (.sum [2, 3]),
+   .inp (.num 3), .fml (.add 5 5), .fml (.add 4 6)]
+
+/- non-vacuity: the hypotheses are satisfiable, the trim succeeds on a workbook with a range input and a buried input,
+   a cell that reads a member of the input range directly is NOT frozen, the buried input is. -/
+example : wfCheck demo = true := by decide
+example : Ready (mkWb demo) (sem demo) (initNoData (inputsOf demo)) := C08_ready_init _
+example :
+    trimmedKeep (trim (mkWb demo) (sem demo) [2, 6] [7] (initNoData (inputsOf demo))) 8 = some [0, 1, 2, 3, 4, 6, 7] ∧
+    trimmedFrozen (trim (mkWb demo) (sem demo) [2, 6] [7] (initNoData (inputsOf demo))) 8 = some [0, 1, 6] ∧
+    trimmedValue (trim (mkWb demo) (sem demo) [2, 6] [7] (initNoData (inputsOf demo))) 7 = some (.sc (.num 11)) := by
+  decide +kernel
+
+/- the error case: an evaluated, unconnected value cell given as input (Z1 of `recon` extended) -/
+example :
+    trim (mkWb (recon ++ [.inp (.num 9)])) (sem (recon ++ [.inp (.num 9)])) [4] [3]
+      (evaluate (mkWb (recon ++ [.inp (.num 9)])) (sem (recon ++ [.inp (.num 9)])) 4
+        (initNoData (inputsOf (recon ++ [.inp (.num 9)])))).2 matches .error (.inputUnused 4) := by
+  decide +kernel
+
+end Inst
+
+end Pycel.Trim
